@@ -211,6 +211,9 @@ def run(ctx):
                 cfg = {'extractor': rng.choice([None, None, 'ok', 'raises', 'junk_pairs']), 'fail_save': rng.random() < 0.15,
                        'rate': rng.choice([None, None, None, 0, 0.5]),
                        'caller_context': fr.CALLER_CONTEXTS[idx % 9] if idx % 9 < 4 else 'plain'}
+                if idx % 11 == 5:
+                    cfg['extractor'] = 'discards'       # the metadata extractor itself asks for the recording to be discarded (after the fact)
+                    ctx.count('runs_whose_extractor_discards')
                 if idx % 6 == 4:
                     cfg['verbose'] = True      # DEBUG logging on; the service object and some captured values cannot be printed by the framework
                     ctx.count('runs_with_debug_logging_and_unprintable_values')
